@@ -85,7 +85,8 @@ def _shrink(v):
     c2['oracle'] = '|'.join(se[:k + 1]) + '|'
     c2.pop('coq_model', None)
     klass = v.get('klass')
-    if inp.get('wrapper') == 'dsse' and len(ops) >= 2 and all(o.get('kind') in ('sign', 'dumpload') for o in ops):
+    if (inp.get('wrapper') == 'dsse' and len(ops) >= 2 and ops[-1].get('kind') == 'sign'
+            and all(o.get('kind') in ('sign', 'dumpload') for o in ops)):
         klass = 'F6-dsse-multi-sign'
     c2['klass'] = klass
     key = (inp.get('wrapper'), tuple((o.get('kind'), o.get('mut')) for o in ops))
